@@ -254,6 +254,7 @@ def run(tier, seed):
                            'exception types), failing Lua writer, unparsable transformed Lua, failing section/version encoder; x {.p8, '
                            '.p8.png} x {destination exists, does not exist}; destination bytes compared before/after',
                    'evaluations': nat.get('n', 0), 'failures': len(nat.get('bad', []))}
+    chk.native_witness = nat.get('bad')
     for v in chk.violations:
         if nat.get('bad'):
             p = json.load(open(v['replay']))
